@@ -1,5 +1,5 @@
 (* C13 — Diffs report exactly the changed keys.  Property theorems only. *)
-From Coq Require Import NArith List Bool.
+From Coq Require Import NArith ZArith List Bool.
 From Dolt Require Import Prolly.Tree Prolly.Cursor C13.Model C13.Spec C13.Proofs.
 Import ListNotations.
 Local Open Scope N_scope.
@@ -44,13 +44,31 @@ Theorem C13_list_diff_refl : forall a, list_diff a a = [].
 Proof. exact list_diff_refl. Qed.
 Print Assumptions C13_list_diff_refl.
 
-Theorem C13_key_range_diff_unbounded_partial :
+(* bounded key ranges: DiffMapsKeyRange and RangeDiffMaps, every [start, stop) *)
+Theorem C13_range_diff_spec :
   forall (addr_eqb : node -> node -> bool) (dec : val -> N),
     (forall x y, addr_eqb x y = true -> x = y) ->
-    forall a b, wf_root a -> wf_root b ->
-      key_range_diff addr_eqb dec None None a b = Some (range_list_diff_d dec None None (flatten a) (flatten b)).
-Proof. exact key_range_diff_unbounded_partial. Qed.
-Print Assumptions C13_key_range_diff_unbounded_partial.
+    forall lo hi a b, wf_root a -> wf_root b ->
+      key_range_diff addr_eqb dec lo hi a b = Some (range_list_diff_d dec lo hi (flatten a) (flatten b))
+      /\ range_diff addr_eqb dec lo hi a b = Some (range_list_diff_d dec lo hi (flatten a) (flatten b)).
+Proof. exact range_diff_spec. Qed.
+Print Assumptions C13_range_diff_spec.
+
+(* the declarative diff lists exactly the keys whose presence or value differs, with the right kind and values *)
+Theorem C13_list_diff_complete :
+  forall a b, ksorted (keys a) -> ksorted (keys b) ->
+  forall c, In c (list_diff a b) <-> key_change (change_key c) a b = Some c.
+Proof. exact list_diff_complete. Qed.
+Print Assumptions C13_list_diff_complete.
+
+(* compareCursors against a stop cursor inside the tree cuts exactly at the stop predicate *)
+Theorem C13_cmp_search :
+  forall p, mono p -> forall t, shape t = true -> ksorted (keys (flatten t)) ->
+  forall c k v, located t c -> length c = S (level t) -> live c -> stack_ok 0 c ->
+    cur_kv c = Some (k, v) ->
+    (cur_compare c (cursor_at_search p t) <? 0)%Z = negb (p k).
+Proof. exact cmp_search. Qed.
+Print Assumptions C13_cmp_search.
 
 Theorem C13_advance_cinv :
   forall T i c, cinv T i c -> cur_valid c = true ->
